@@ -36,6 +36,9 @@
                                  for a string literal `"m"`: `span.start + 1 + range`
                                  (`simple_literal` + `unescape_str`) designates
                                  exactly the escape inside the content `m`;
+   * `char_error_span`, `decodeLit_char_error_span`   a character literal's escape
+                                 error cites `token.start + 1 .. token.end`: the
+                                 content and the closing quote, on boundaries;
    * `source_piece_start_constants`, `uScan_brace_arm_uses_source_step`,
      `pieces_start_from_source_init`, `source_arith_unescape_*`   the constants of
                                  the scan (`let mut piece_start = 0`, `piece_start =
@@ -300,5 +303,42 @@ theorem pieces_eq (t : List Char) :
 
 example : rebuildFrom ['a', '{', '{', '€', '}', '}', 'b'] [(0, 1), (3, 6)] (8, 9) = ['a', '{', '{', '€', '}', '}', 'b'] := by
   decide
+
+/-! ## character literals: the whole `token.start + 1 .. token.end` -/
+
+/-- `char_error_span`: for a character token `'m'` at `sp` the location of an escape error
+(`unescape_char(trimmed, Span { start: span.start + 1, ..span })` cites the span it was given) is a span of the
+source on character boundaries; the text under it is the content AND the closing quote (`..span` keeps the
+token's end) — one byte more than the content, never off a boundary. -/
+theorem char_error_span (src : List Char) (sp : Span) (hsp : SpanOk src sp) (m : List Char)
+    (ht : textOf src sp = '\'' :: (m ++ ['\''])) :
+    SpanOk src (sp.1 + 1, sp.2) ∧ textOf src (sp.1 + 1, sp.2) = m ++ ['\''] := by
+  have hq : sz '\'' = 1 := by decide
+  obtain ⟨pre, post, hsrc, hpre, hlen⟩ := textOf_of_spanOk hsp
+  have hb : blen (textOf src sp) = 1 + blen m + 1 := by rw [ht]; simp only [blen, blen_append, hq]; omega
+  have ha : SpanOk (textOf src sp) (1, blen (textOf src sp)) := by rw [ht]; exact afterQuote_spanOk hq m
+  have h1 := spanOk_in hsp ha
+  have e : sp.1 + blen (textOf src sp) = sp.2 := hlen
+  have h2 := textOf_textOf hsp ha
+  simp only [e] at h1 h2
+  refine ⟨h1, ?_⟩
+  rw [← h2, ht]
+  refine textOf_decomp (a := ['\'']) (b := []) (by simp) (by simp [blen, hq]) ?_
+  show blen ('\'' :: (m ++ ['\''])) = blen ['\''] + blen (m ++ ['\''])
+  simp [blen]
+
+/-- the model's `decodeLit` cites that span for a character token -/
+theorem decodeLit_char_error_span (c : Ctx) (sp : Span) (s s' : PState) (e : PErr)
+    (h : decodeLit c .char sp s = .err e s') : e.span = (sp.1 + 1, sp.2) := by
+  unfold decodeLit at h
+  cases hlit : c.lit false sp.1 sp.2 with
+  | none => rw [hlit] at h; simp [addNode] at h
+  | some v =>
+    obtain ⟨k, j, a, b⟩ := v
+    rw [hlit] at h
+    simp only [fail, PR.err.injEq] at h
+    rw [← h.1]
+
+example : textOf ['x', '\'', '\\', '€', '\''] (1 + 1, 7) = ['\\', '€'] ++ ['\''] := by decide
 
 end RotoV.C06FSpans
